@@ -108,7 +108,17 @@ def run_hist(ro_text, msg_texts):
     """fold of ro += msg, stopping at the first exception; every intermediate outcome"""
     ro = RunningOrder.from_string(ro_text)
     steps = []
-    _ = (ro.completed, repr(ro))
+
+    def repr_completed():
+        try:
+            return 'completed' in repr(ro)
+        except Exception as e:
+            return ename(e)                       # an exception is a value of the observation
+    try:
+        _ = ro.completed
+    except Exception:
+        pass
+    repr_completed()
     for mt in msg_texts:
         try:
             m = MosFile.from_string(mt)
@@ -128,7 +138,7 @@ def run_hist(ro_text, msg_texts):
             comp = ename(e)
         steps.append({'cls': type(m).__name__, 'err': err, 'warns': wnames(ws),
                       'tree': elem_to_tree(ro.xml), 'completed': comp,
-                      'repr_completed': 'completed' in repr(ro)})
+                      'repr_completed': repr_completed()})
     return steps
 
 
